@@ -4,6 +4,7 @@ import SE.Driver.Mapper
 import SE.Driver.Pipe
 import SE.Driver.Queue
 import SE.Driver.Relay
+import SE.Driver.Listener
 /-
 sedriver: the line-protocol front end of the executable models. One operation per input
 line, one result line per operation. It executes the very definitions the theorems in
@@ -22,6 +23,8 @@ def step (line : String) : String :=
     | "pipe" => pipeCmd args
     | "queue" => queueCmd args
     | "relay" => relayCmd args
+    | "frame" => frameCmd args
+    | "udpq" => udpqCmd args
     | "qjudge" => qjudgeCmd args
     | _ => "bad-op"
 
